@@ -377,6 +377,7 @@ def gen_workload(tape):
             blk["target_prefilled"] = blk["target"] and tape.flag("prefill", 1, 2)
         # explicit arguments passed by position, as in the docstring examples
         blk["positional"] = tape.flag("positional", 1, 3)
+        blk["target_bare"] = tape.flag("target_bare", 1, 3)
         blocks.append(blk)
     w["blocks"] = blocks
     return w
@@ -645,10 +646,17 @@ class Exec:
         got = None
         copy_path = None
         fired_before = self.plane.fired
+        # the explicit target may be a bare file name in the working directory
+        t_arg, cwd0 = target, None
+        if target and blk.get("target_bare"):
+            cwd0 = os.getcwd()
+            os.chdir(os.path.dirname(target))
+            t_arg = os.path.basename(target)
+            self.probe("target_is_a_bare_file_name")
         try:
-            with (umod.decompress(path, tmpdir, target) if blk.get("positional")
-                  else umod.decompress(path, tmpdir=tmpdir, target=target)) as dfile:
-                copy_path = dfile
+            with (umod.decompress(path, tmpdir, t_arg) if blk.get("positional")
+                  else umod.decompress(path, tmpdir=tmpdir, target=t_arg)) as dfile:
+                copy_path = os.path.join(os.getcwd(), dfile) if dfile else dfile
                 if body_fault == 0:
                     raise BodyError("before reading")
                 with open(dfile, "rb") as f:
@@ -658,6 +666,9 @@ class Exec:
         except (BodyError, Injected, InjectedInterrupt, OSError, EOFError, zipfile.BadZipFile,
                 lzma.LZMAError, ValueError, KeyError, Exception) as e:  # noqa
             exc = e
+        finally:
+            if cwd0 is not None:
+                os.chdir(cwd0)
         io_fault_here = self.plane.fired is not None and self.plane.fired is not fired_before
         if pristine is not None:           # later blocks see the intact archive again
             with open(path, "wb") as f:
